@@ -269,37 +269,8 @@ def check(run: Run) -> None:
         run.check("C03.R2", f"{fn} builds `{pre}<handle>` names", any(sh and isinstance(sh[0], Const) and sh[0].text == pre and len(sh) == 2 for sh in shapes), fn, f"shapes {[render(s) for s in shapes]}",
                   f"{fn} does not build link names of the form {pre}<handle>", file=FILE, node=f.node)
 
-    # ---------------------------------------------------------------- R4 (static shapes)
-    n_like = 0
-    esc_chain = ("replace('\\\\','\\\\\\\\')", "replace('%','\\\\%')", "replace('_','\\\\_')")
-    for hq in helpers:
-        f = model.func(hq)
-        se = ShapeEval(model, f)
-        likes = []
-        for c in ast.walk(f.node):
-            if isinstance(c, ast.Call):
-                nm = c.func.attr if isinstance(c.func, ast.Attribute) else (c.func.id if isinstance(c.func, ast.Name) else "")
-                if nm in ("like", "ilike", "not_like", "not_ilike", "like_op") and c.args:
-                    likes.append((c, c.args[0], kwarg(c, "escape")))
-                if nm == "op" and c.args and f.name == "desc_filters":
-                    # op = partial(op_map[...], escape=...) applied to op_arg
-                    part = [p for p in ast.walk(f.node) if isinstance(p, ast.Call) and ast.unparse(p.func) == "partial" and kwarg(p, "escape") is not None]
-                    likes.append((c, c.args[0], kwarg(part[0], "escape") if part else None))
-        for c, pat, esc in likes:
-            shapes = [s for s in se.eval(pat) if any(isinstance(p, Hole) and ("filter" in p.source or "link" in p.source) for p in s) or any(isinstance(p, Const) and "%" in p.text for p in s)]
-            for sh in shapes:
-                for p in sh:
-                    if isinstance(p, Hole) and any(k in p.source for k in ("desc_filter", "file_filter", "link_filter", "link_name")):
-                        n_like += 1
-                        tr = p.transforms
-                        ok_chain = tuple(t for t in tr if t.startswith("replace('\\\\'") or t.startswith("replace('%'") or t.startswith("replace('_'")) == esc_chain
-                        granted = [t for t in tr if t not in esc_chain]
-                        ok_extra = all(t == "replace('*','%')" for t in granted) and (not granted or tr.index("replace('*','%')") > tr.index(esc_chain[2]) if ok_chain and granted else True)
-                        esc_ok = esc is not None and (ast.unparse(esc) in ("'\\\\'", "_LIKE_ESCAPE_CHAR"))
-                        run.check("C03.R4", f"{f.name}: LIKE pattern takes the query text literally", ok_chain and ok_extra and esc_ok, f.name, f"{render(sh)} escape={ast.unparse(esc) if esc is not None else None}",
-                                  f"{f.name} builds the LIKE pattern `{render(sh)}` (escape={ast.unparse(esc) if esc is not None else 'missing'}): '%', '_' or the escape character in the query text "
-                                  "are not all escaped, so they act as wildcards / swallow the next character", file=FILE, node=c)
-    run.floor("LIKE patterns fed by query text", n_like, 4)
+    # ---------------------------------------------------------------- R4 (LIKE literalness, by evaluating the helpers on generic texts)
+    like_literalness(run, model, I, I2, DOp)
     ft = model.func(f"{QC}._to_todo_status")
     vals = {m: [v for v, _ in I.run_function(ft.qualname, [nt[m]])] for m in nt}
     ok = all(vals[m] == ([None] if m == "BASIC" else [nt[m]]) for m in nt)
@@ -307,3 +278,81 @@ def check(run: Run) -> None:
     run.units = dict(helpers=[h.split(".")[-1] for h in helpers], fields=fields)
     run.trusted = ["SQLAlchemy meaning of and_/or_/in_/not_in/like/ilike/==", "metaman.register_function_factory appends the decorated function to the list"]
     run.assumptions += ["SQL evaluation over index contents is not modelled", "get_only_item uniqueness, smart-case on Unicode not decided"]
+
+
+def like_literalness(run: Run, model: PyModel, I, I2, DOp) -> None:
+    """Each helper that builds a LIKE / ILIKE pattern from query text is evaluated on concrete texts: a neutral one fixes the
+    fixed prefix / suffix of the pattern, then texts made of the LIKE metacharacters (% _ and the escape character) must come out
+    escaped with the escape character the call passes as `escape=`, and the one granted glob (`*` in f=) must become `%`."""
+    LIKE_HEADS = (".like", ".ilike", ".not_like", ".not_ilike", ".notlike", ".notilike")
+
+    def patterns(t):
+        out = []
+        for x in subterms(t):
+            if isinstance(x, Term) and x.head in LIKE_HEADS and len(x.args) >= 2:
+                esc = None
+                for a in x.args[2:]:
+                    if isinstance(a, tuple) and a and a[0] == "kw":
+                        esc = dict(a[1:]).get("escape")
+                out.append((x.args[1], esc))
+            if isinstance(x, Term) and x.head in ("partial",) and x.args and isinstance(x.args[0], Term):
+                pass
+        return out
+
+    cases = [
+        ("text filter (case-insensitive)", I, "desc_filters", lambda v: dict(desc_filters=lambda st: [obj(st, "DescFilter", value=v, case_sensitive=False, op=DOp["CONTAINS"])]), False),
+        ("text filter (case-sensitive)", I, "desc_filters", lambda v: dict(desc_filters=lambda st: [obj(st, "DescFilter", value=v, case_sensitive=True, op=DOp["CONTAINS"])]), False),
+        ("file filter", I, "file_filters", lambda v: dict(file_filters=lambda st: [obj(st, "FileFilter", path_glob=v, negated=False)]), True),
+        ("link filter", I2, "link_filters", lambda v: dict(link_filters=lambda st: [obj(st, "LinkFilter", link=v, negated=False)]), False),
+    ]
+    n = 0
+    for label, interp, helper, mk, glob in cases:
+        def pats_for(v, interp=interp, helper=helper, mk=mk):
+            def rec(I3, recv, name, args, kwargs, st, node):
+                if "." + name in LIKE_HEADS:
+                    st.trace.append(("like", args[0] if args else None, kwargs.get("escape")))
+                return None
+
+            old = interp.probes.get("method:term")
+            interp.probes["method:term"] = rec
+            try:
+                res = run_helper(interp, helper, **mk(v))
+            finally:
+                if old is None:
+                    interp.probes.pop("method:term", None)
+                else:
+                    interp.probes["method:term"] = old
+            out = []
+            for t, s in res:
+                if isinstance(t, Raised) or [x for x in s.imprecise if "abstract iterable" not in x]:
+                    return None, (f"raises {t.exc}" if isinstance(t, Raised) else "; ".join(s.imprecise[:2]))
+                out.append([(p, e) for k, p, e in s.trace if k == "like"])
+            return out, None
+
+        base, err = pats_for("a")
+        if base is None or not base or not all(base):
+            run.undecided("C03.R4", helper, f"{label}: " + (err or "no LIKE pattern found for a neutral text"))
+            continue
+        # one LIKE pattern per result state is compared position-wise
+        for probe_text, what in (("%", "a percent sign"), ("_", "an underscore"), ("\\", "the escape character"), ("x%y_z\\w", "a mix of %, _ and the escape character")) + ((("p*q", "the granted glob *"),) if glob else ()):
+            got, err = pats_for(probe_text)
+            if got is None or len(got) != len(base):
+                run.undecided("C03.R4", helper, f"{label} with {what}: " + (err or "different number of result forms"))
+                continue
+            for gb, bb in zip(got, base):
+                for (gp, gesc), (bp, besc) in zip(gb, bb):
+                    n += 1
+                    if not (isinstance(gp, str) and isinstance(bp, str) and bp.count("a") == 1):
+                        run.undecided("C03.R4", helper, f"{label}: pattern is not a concrete string ({gp!r} / {bp!r})")
+                        continue
+                    pre, suf = bp.split("a")
+                    esc = gesc if isinstance(gesc, str) and len(gesc) == 1 else None
+                    if esc is None:
+                        run.refuted("C03.R4", helper, f"{label}: LIKE without escape=", f"the {label} builds the LIKE pattern {gp!r} without passing escape=: no metacharacter of the query text can be taken literally "
+                                    "(SQLite has no default escape character)", file=FILE)
+                        continue
+                    want = pre + "".join((esc + ch) if ch in ("%", "_", esc) else ("%" if (glob and ch == "*") else ch) for ch in probe_text) + suf
+                    run.check("C03.R4", f"{label}: {what} is taken literally", gp == want, helper, f"{label}: {probe_text!r} -> {gp!r}",
+                              f"for the query text {probe_text!r} the {label} builds the LIKE pattern {gp!r} (escape={esc!r}); taking every character literally requires {want!r}: "
+                              "'%', '_' or the escape character act as wildcards / swallow the next character", file=FILE)
+    run.floor("LIKE patterns evaluated", n, 12)
